@@ -273,6 +273,31 @@ def run(ctx):
     key_length_filters(ctx, 'C13.r6', GC, 16)
     key_length_filters(ctx, 'C13.r6', GCC, 16)
     key_length_filters(ctx, 'C13.r6', GT, 17)
+    # r7 (F55, F56): the filters of get_transactions.  script_len_range is not implemented for transactions: it must be rejected like
+    # the other two, not silently ignored; the script filter is evaluated on the cell of the entry (prefix match, as get_cells does),
+    # not by a point lookup in the index of the filter script (which only has registered scripts from their own start numbers)
+    from engine import census
+    act, _ = census.compute(P, GT, closures=True)
+    rej = [e for e in act if e['cls'] == 'reject' and any('script_len_range' in a and a.rstrip().endswith('is Some') for a in e['trigger'])]
+    ctx.ob('C13.r7', GT, 'get_transactions rejects filter.script_len_range (not implemented for transactions) instead of ignoring it', bool(rej))
+    Tb = ctx.body(GT)
+    lookups = [st for c in [Tb] + P.closures_of(Tb) for blk in c.blocks.values() if not blk.cleanup for st in blk.stmts
+               if st.kind == 'assign' and re.search(r'Key::<[^>]*>::Tx(Lock|Type)Script\(', st.rhs or '')]
+    cellf = [t for c in [Tb] + P.closures_of(Tb) for _, k, t in P.call_keys(c) if k == 'entry_cell_script_starts_with']
+    ctx.ob('C13.r7', GT, 'the script filter of get_transactions is evaluated on the cell of the entry in both branches, not looked up in the index of the filter script',
+           not lookups and len(cellf) >= 2, index_lookups=len(lookups), cell_checks=len(cellf),
+           failing_history=None if (not lookups and len(cellf) >= 2) else 'set_scripts([lock]); a cell with (lock, type T) is indexed; get_transactions({script: lock, filter: {script: T}}) '
+           'returns nothing (T is not registered, its index is empty) while get_cells with the same key returns the cell')
+    # (F57, known) every range filter is half-open [r0, r1): the upper bound is excluded
+    incl = []
+    for nm in (GC, GCC):
+        fc = filter_closure(ctx.body(nm))
+        for op, lt, rt in (fc[1] if fc else []):
+            if (op == 'Gt' and str(rt).startswith('range[')) or (op == 'Lt' and str(lt).startswith('range[') and False):
+                incl.append((nm.split('::')[-1], op, lt, rt))
+    ctx.ob('C13.r7', GC, 'every range filter excludes its upper bound ([r0, r1), as documented for the indexer API)', not incl, inclusive_upper_bounds=[str(x) for x in incl],
+           failing_history=None if not incl else 'script_len_range [1, 33): a cell whose type script has exactly 33 bytes (empty args) is returned by get_cells and summed by '
+           'get_cells_capacity; output_data_len_range / output_capacity_range / block_range exclude r1')
     # r5 seek keys: where an un-cursored query starts iterating
     seek_keys(ctx, BQ)
     # reviewed reference (engine/census.py)
